@@ -18,12 +18,10 @@ Fixpoint ctc_features_acc (n : node) (acc : list string) : list string :=
         | DStr s => if starts_with_char "'" s then acc else add_once s acc
         | _ => acc
         end
-      else if is_unary_op n then
-             match l with Some a => ctc_features_acc a acc | None => acc end
-      else if is_binary_op n then
-             let acc1 := match l with Some a => ctc_features_acc a acc | None => acc end in
-             match r with Some b => ctc_features_acc b acc1 | None => acc1 end
-      else acc
+      else
+        (* every operator node, whatever its arity (aggregates included): left operand, then right *)
+        let acc1 := match l with Some a => ctc_features_acc a acc | None => acc end in
+        match r with Some b => ctc_features_acc b acc1 | None => acc1 end
   end.
 Definition ctc_features (n : node) : list string := ctc_features_acc n [].
 
